@@ -25,6 +25,10 @@ type Shape struct {
 	RefIx  bool     `json:"ref_ix"`
 	RefID  bool     `json:"ref_id"`
 	Params bool     `json:"params"`
+	// Vars: the request-shape variants the routes of this shape have besides the canonical body
+	// (plusOpt: an optional member / alternative value added; minusAlt: a primary input left out;
+	// minusAltPlusOpt: both) - different handler paths that must all sit behind the same checks
+	Vars   []string `json:"vars"`
 	Routes []string `json:"routes"`
 }
 
@@ -66,14 +70,20 @@ func shapeOf(r Route) Shape {
 		s.Kinds = append(s.Kinds, k)
 	}
 	sort.Strings(s.Kinds)
+	vb := variantBases(r)
+	for _, v := range []string{"plusOpt", "minusAlt", "minusAltPlusOpt"} {
+		if len(vb[v]) > 0 {
+			s.Vars = append(s.Vars, v)
+		}
+	}
 	b2 := func(b bool, t string) string {
 		if b {
 			return t
 		}
 		return ""
 	}
-	s.ID = fmt.Sprintf("%s%s%s|L:%s|K:%s|%s%s%s", s.Grp, b2(s.Body, "+body"), b2(s.Writes, "+w"), strings.Join(s.Lim, ","),
-		strings.Join(s.Kinds, ","), b2(s.RefIx, "ix"), b2(s.RefID, "id"), b2(s.Params, "+path"))
+	s.ID = fmt.Sprintf("%s%s%s|L:%s|K:%s|%s%s%s|V:%s", s.Grp, b2(s.Body, "+body"), b2(s.Writes, "+w"), strings.Join(s.Lim, ","),
+		strings.Join(s.Kinds, ","), b2(s.RefIx, "ix"), b2(s.RefID, "id"), b2(s.Params, "+path"), strings.Join(s.Vars, ","))
 	return s
 }
 
@@ -413,7 +423,8 @@ type Case struct {
 	Mut   string `json:"mut"`
 	Kind  string `json:"kind,omitempty"` // wrongType: kind of the member
 	Repl  string `json:"repl,omitempty"` // wrongType: JSON type put in its place
-	Lim   string `json:"lim,omitempty"`  // overLimit: k | batch | dim | body
+	Lim   string `json:"lim,omitempty"`  // overLimit: k | ef | batch | dim | body
+	Var   string `json:"var,omitempty"`  // request-shape variant class the mutation is combined with ("" = canonical body)
 	// required outcome class
 	Status string `json:"status"`  // "4xx" | "any"
 	NoWork bool   `json:"no_work"` // refused before any work
@@ -563,13 +574,114 @@ func hashStr(s string) uint32 {
 	return h
 }
 
-func refineRoute(c Case, r Route, limits map[string]int64, rng *rand.Rand) []Concrete {
+// variant is one alternative valid body of a route.
+type variant struct {
+	tag  string
+	body *omap
+}
+
+// optional members worth switching on, with a value that steers the handler into another path
+func optionalValue(f Field) (any, bool) {
+	switch f.JSON {
+	case "query_text", "new_content", "query":
+		return "hello world", true
+	case "graph_filter":
+		return map[string]any{"root_id": "a", "relations": []any{"rel"}, "direction": "out", "max_depth": 1}, true
+	case "ef_search":
+		return 50, true
+	case "alpha":
+		return 0.5, true
+	case "semantic_threshold":
+		return 0.5, true
+	case "text_language":
+		return "english", true
+	case "discard_id":
+		return "d", true
+	case "maintenance", "memory_config", "auto_links":
+		return nil, false // configuration objects: their own routes cover them
+	}
+	if f.Kind == "bool" {
+		return true, true
+	}
+	if v, ok := validByName(f.JSON); ok && kindAccepts(f.Kind, v) {
+		return v, true
+	}
+	return nil, false
+}
+
+// alternative values of members that are always present
+var altByName = map[string][]any{"property_filter": {""}, "direction": {"in"}, "type": {"refine"}, "with_graph": {true}, "hard_delete": {true}}
+
+// variantBases derives the request-shape variants of a route from its request struct.
+func variantBases(r Route) map[string][]variant {
+	out := map[string][]variant{}
+	if r.Decode == "none" {
+		return out
+	}
 	base := validBody(r)
+	type kv struct {
+		k string
+		v any
+	}
+	var opts []kv
+	var prim []string
+	for _, f := range r.Fields {
+		_, inBase := base.vals[f.JSON]
+		if f.Optional && !inBase {
+			if v, ok := optionalValue(f); ok {
+				opts = append(opts, kv{f.JSON, v})
+			}
+		}
+		if f.Optional && inBase && f.Kind == "floats" {
+			prim = append(prim, f.JSON)
+		}
+		if inBase {
+			for _, av := range altByName[f.JSON] {
+				if kindAccepts(f.Kind, av) {
+					opts = append(opts, kv{f.JSON, av})
+				}
+			}
+		}
+	}
+	show := func(v any) string { b, _ := json.Marshal(v); return clip(string(b), 24) }
+	for _, o := range opts {
+		b := base.clone()
+		b.set(o.k, o.v)
+		out["plusOpt"] = append(out["plusOpt"], variant{"+" + o.k + "=" + show(o.v), b})
+	}
+	for _, pf := range prim {
+		b := base.clone()
+		b.del(pf)
+		out["minusAlt"] = append(out["minusAlt"], variant{"-" + pf, b})
+		for _, o := range opts {
+			b2 := base.clone()
+			b2.del(pf)
+			b2.set(o.k, o.v)
+			out["minusAltPlusOpt"] = append(out["minusAltPlusOpt"], variant{"-" + pf + " +" + o.k + "=" + show(o.v), b2})
+		}
+	}
+	return out
+}
+
+func refineRoute(c Case, r Route, limits map[string]int64, rng *rand.Rand) []Concrete {
+	if c.Var == "" || c.Var == "canon" {
+		return refineOn(c, r, limits, rng, validBody(r), "")
+	}
+	var out []Concrete
+	for _, v := range variantBases(r)[c.Var] {
+		out = append(out, refineOn(c, r, limits, rng, v.body, "{"+v.tag+"} ")...)
+	}
+	return out
+}
+
+// refineOn applies the mutation class of the case to one valid body of the route.
+func refineOn(c Case, r Route, limits map[string]int64, rng *rand.Rand, base *omap, tag string) []Concrete {
+	variantMode := tag != ""
 	params := paramsFor(r)
 	query := validQuery(r)
 	hasBody := r.Decode != "none"
 	mk := func(label string, body string, p map[string]string, q map[string]string, rawParam bool) Concrete {
-		cc := Concrete{Case: c.ID, Route: routeKey(r), Label: label, Status: c.Status, NoWork: c.NoWork, Sanity: c.Sanity}
+		cc := Concrete{Case: c.ID, Route: routeKey(r), Label: tag + label, Status: c.Status, NoWork: c.NoWork, Sanity: c.Sanity}
 		cc.Req = Req{Method: methodOf(r), Target: target(r, p, rawParam, q), Body: body}
 		return cc
 	}
@@ -706,11 +818,16 @@ func refineRoute(c Case, r Route, limits map[string]int64, rng *rand.Rand) []Con
 			switch {
 			case numeric(f):
 				vals := []string{"2147483648", "9223372036854775807", "99999999999999999999", "1e308", "1e400", "1.5", "1e3"}
+				if variantMode {
+					vals = []string{"2147483648", "9223372036854775807", "1.5"}
+				}
 				for _, v := range vals {
 					b := base.clone()
 					b.set(f.JSON, raw(v))
 					out = append(out, withBody(f.JSON+":="+v, b.json()))
 				}
+			case variantMode:
+				// combined with a request-shape variant only the numeric members are varied
 			case f.Kind == "floats":
 				for _, v := range []string{"[3.4e38,3.4e38,3.4e38,3.4e38]", "[1e39,0,0,0]", "[1e-46,0,0,0]", "[1e308,1e308,1e308,1e308]"} {
 					b := base.clone()
@@ -743,13 +860,14 @@ func refineRoute(c Case, r Route, limits map[string]int64, rng *rand.Rand) []Con
 	case "overLimit":
 		lim := limits[c.Lim]
 		switch c.Lim {
-		case "k":
+		case "k", "ef":
+			member := limitField[c.Lim]
 			for _, f := range r.Fields {
-				if f.JSON == "k" {
-					for _, v := range []int64{lim + 1, lim * 10} {
+				if f.JSON == member {
+					for _, v := range []int64{lim + 1, lim * 10, 2000000000} {
 						b := base.clone()
-						b.set("k", v)
-						out = append(out, withBody(fmt.Sprintf("k:=%d", v), b.json()))
+						b.set(member, v)
+						out = append(out, withBody(fmt.Sprintf("%s:=%d", member, v), b.json()))
 					}
 				}
 			}
